@@ -268,7 +268,12 @@ class GoLower:
     def _block(self, stmts: List[Node], env: Dict[str, Poly], effects: List[Effect], guard: List[str]) -> None:
         for st in stmts:
             k = st.k
-            if k == "assign":
+            if k == "assign" and len(st.lhs) > 1 and len(st.lhs) == len(st.rhs) and st.op in (":=", "=") and all(t.k == "id" for t in st.lhs):
+                # parallel assignment: all right sides are evaluated first
+                vals = [self.expr(r, env) for r in st.rhs]
+                for t, v in zip(st.lhs, vals):
+                    env[t.name] = v
+            elif k == "assign":
                 tgt = st.lhs[0]
                 val = self.expr(st.rhs[0], env)
                 if st.op in (":=", "="):
